@@ -420,7 +420,7 @@ pub fn faults<P: PType>(st: &MapSt<P>, cx: &Cx) -> (Vec<Viol>, u64) {
                 mask |= 1 << id;
             }
         }
-        let keep = |o: &Obs| -> bool { cx.uni.key_id(norm((o.0, o.1))).map(|id| (mask >> id) & 1 == 1).unwrap_or(true) };
+        let keep = |o: &Obs| -> bool { cx.uni.key_id(norm((o.0, o.1))).map(|id| mask.checked_shr(id as u32).map(|x| x & 1 == 1).unwrap_or(false)).unwrap_or(true) };
         for fault_at in 0..before.len() {
             let mut map = st.map.clone();
             let mut rejected: Vec<GK> = vec![];
